@@ -168,6 +168,11 @@ class HGen:
                 src["required"].append("zz_nonfield")
         elif own and rng.random() < 0.25:
             src["optional"] = sorted(rng.sample(own, rng.randint(1, len(own))))
+        if everything and rng.random() < 0.15:
+            # @keys_of(E1[, E2[, E3]]) over own and inherited names; sometimes one member of one enum
+            # (any argument position) is not a field
+            missing = self.fresh("kz") if rng.random() < 0.3 else None
+            src["keysOf"] = self.keys_enums(everything, rng.randint(1, 3), missing)
         if rng.random() < 0.2:
             src["addl"] = rng.random() < 0.5
         if rng.random() < 0.25:
@@ -175,6 +180,29 @@ class HGen:
         if rng.random() < 0.08:
             src["immutable"] = True
         return src
+
+    def keys_enums(self, pool, k, missing=None, pos=None):
+        """member-name lists of k enum classes for @keys_of: the names of `pool` dealt out over the
+        enums (a name may occur in two enums), plus — if given — the name `missing` in the enum at
+        argument position `pos` (random if None), at a random place among its members"""
+        rng = self.rng
+        pool = list(pool)
+        rng.shuffle(pool)
+        if rng.random() < 0.5 and len(pool) > k:
+            pool = pool[:rng.randint(k, len(pool))]
+        groups = [[] for _ in range(k)]
+        for i, nm in enumerate(pool):
+            groups[i % k].append(nm)
+            if rng.random() < 0.15:
+                groups[rng.randrange(k)].append(nm)
+        for g in groups:
+            if not g:
+                g.append(rng.choice(pool))
+        groups = [list(dict.fromkeys(g)) for g in groups]
+        if missing is not None:
+            p = rng.randrange(k) if pos is None else pos
+            groups[p].insert(rng.randint(0, len(groups[p])), missing)
+        return groups
 
     def hierarchy(self, max_classes=4, sealed_leaf=False):
         """steps defining a DAG of classes (chains, multiple bases, mixins)"""
@@ -306,7 +334,12 @@ class HGen:
             variant("subclass-sealed", lambda s: None, bases=[base_name, sealed_name] if base_name != "Structure" else [sealed_name])
         cbad = rng.choice([{"l": [1]}, None, {"m": []}, {"d": [1, 1]}, {"t": [1]}, {"s": [1]}])
         variant("bad-constant", lambda s: s["entries"].append(["cst", {"e": "const", "v": cbad}]))
-        variant("keys-of-missing", lambda s: s.update(keysOf=[s["entries"][0][0], "missing_member"]))
+        # @keys_of with 1..3 enum classes whose other members are own / inherited fields; the missing
+        # member sits in the enum at every argument position in turn
+        for k, pos in [(1, 0), (2, 0), (2, 1), (3, rng.choice([0, 1])), (3, 2)]:
+            variant(f"keys-of-missing:{k}-enums:pos{pos}",
+                    lambda s, k=k, pos=pos: s.update(keysOf=self.keys_enums(
+                        sorted(set(base_visible) | {s["entries"][0][0]}), k, "missing_member", pos)))
         an, ak = rng.choice([("_foo", "bool"), ("_foo", "list"), ("_bar", "dict"), ("plain_attr", "bool"),
                              ("_x", "list"), ("other_attr", "dict")])
         variant("unknown-attr", lambda s: s["entries"].append([an, {"e": "attr", "a": ak}]), expect=guards["consts"])
@@ -321,7 +354,9 @@ class HGen:
         c["entries"] = c["entries"][:1]
         c["optional"] = []
         c["required"] = None
-        c["keysOf"] = [c["entries"][0][0]] if kind == "keys-of-missing" else []
+        c["keysOf"] = ([[n for n in e if n != "missing_member"] for e in src["keysOf"]]
+                       if kind.startswith("keys-of-missing") else [])
+        c["keysOf"] = [e for e in c["keysOf"] if e]
         if kind == "subclass-sealed":
             c["bases"] = ["Structure"]
         return {"op": "define", "src": c}
@@ -392,6 +427,8 @@ def gen_define_cases(rng, tier, n):
             fsteps.append({"op": "fieldclass", "name": "SubImmStr", "bases": ["ImmStr"], "fault": "subclass-immutable-field",
                            "expect_raise": True})
             fsteps.append({"op": "fieldclass", "name": "OkStr", "bases": ["String"]})
+            fsteps.append({"op": "fieldclass", "name": "SubImmStr2", "bases": ["ImmStr", "OkStr"],
+                           "fault": "subclass-immutable-field", "expect_raise": True})
             fsteps.append({"op": "abstract"})
             cases.append(finish({"suite": "define", "guards": guards, "steps": fsteps, "mode": rng.choice(["type", "exec"]),
                                  "stream": "faults"}))
@@ -518,14 +555,19 @@ def specials(src, body):
         body["_immutable"] = src["immutable"]
 
 
+def keys_enum_classes(groups):
+    return [enum.Enum(f"_KeysEnum{i}", {n: j + 1 for j, n in enumerate(g)}) for i, g in enumerate(groups)]
+
+
 def class_source_text(src, env, ns):
     """class-statement source text; field objects are produced by calls made inside the body"""
     lines = []
     deco = ""
     if src["keysOf"]:
-        ns["_KeysEnum"] = enum.Enum("_KeysEnum", {n: i + 1 for i, n in enumerate(src["keysOf"])})
+        for i, e in enumerate(keys_enum_classes(src["keysOf"])):
+            ns[f"_KeysEnum{i}"] = e
         ns["keys_of"] = keys_of
-        deco = "@keys_of(_KeysEnum)\n"
+        deco = "@keys_of(" + ", ".join(f"_KeysEnum{i}" for i in range(len(src["keysOf"]))) + ")\n"
     bases = ", ".join(src["bases"])
     lines.append(f"{deco}class {src['name']}({bases}):")
     body = {}
@@ -569,8 +611,7 @@ def do_define(src, env):
     body = class_body(src, env)
     cls = type(src["name"], bases, body)
     if src["keysOf"]:
-        e = enum.Enum("_KeysEnum", {n: i + 1 for i, n in enumerate(src["keysOf"])})
-        cls = keys_of(e)(cls)
+        cls = keys_of(*keys_enum_classes(src["keysOf"]))(cls)
     return cls
 
 
@@ -967,6 +1008,8 @@ def tags(case, impl, model):
         if st["op"] == "define":
             nb = len([b for b in st["src"]["bases"] if not b.startswith("Mx")])
             out.append(f"define:{res}")
+            if st["src"].get("keysOf") and not st.get("fault"):
+                out.append(f"keys_of:{len(st['src']['keysOf'])}-enums:{res}")
             if st.get("fault"):
                 out.append(f"fault:{st['fault']}:{res}")
             elif "ok" in r:
